@@ -1,34 +1,40 @@
 //! Kani harnesses for the pristine kernels of `mutations.rs` (C10).
 use super::*;
 
-// HARNESS: c10_can_pack
-// PROPS: C10
-// TIER: quick
-// TIMEOUT: 300
-// DRIVES: can_pack
-// BOUNDS: 1 <= mtu <= 65535, message_size and add below 2^24 (the 64-bit symbolic remainder does not finish within 300 s at full width)
-#[kani::proof]
-fn c10_can_pack() {
+/// `can_pack` against its specification for one concrete maximum size and symbolic sizes.
+/// (A symbolic divisor makes the 64-bit remainder intractable for the SAT back end: no verdict in
+/// 300 s even with 13-bit operands; with a constant divisor the query is decided in seconds.)
+fn can_pack_spec(mtu: usize) {
     let message_size: usize = kani::any();
     let add: usize = kani::any();
-    let mtu: usize = kani::any();
-    // ASSUME: maximum message size in 1..=65535, sizes below 2^24
-    kani::assume(mtu >= 1 && mtu <= 65535 && message_size < 1 << 24 && add < 1 << 24);
+    // ASSUME: sizes are below 2^62 (no realistic message overflows usize)
+    kani::assume(message_size < 1 << 62 && add < 1 << 62);
     let fits = can_pack(message_size, add, mtu);
     let dangling = message_size % mtu;
-    // `true` exactly when the last, partially filled packet has room for `add` more bytes,
-    // i.e. appending never starts a new packet.
+    // `true` exactly when the last, partially filled packet has room for `add` more bytes.
     assert!(fits == (dangling > 0 && dangling + add <= mtu));
     if fits {
-        // number of packets does not grow
-        let packets_before = message_size.div_ceil(mtu);
-        let packets_after = (message_size + add).div_ceil(mtu);
-        assert!(packets_after == packets_before);
+        // Appending never starts a new packet.
+        assert!((message_size + add).div_ceil(mtu) == message_size.div_ceil(mtu));
         kani::cover!(message_size > mtu, "packing into the tail of a multi-packet message");
     }
     if message_size < mtu && message_size > 0 {
-        // below one packet: fits iff the sum stays within the maximum size
+        // Below one packet: fits iff the sum stays within the maximum size.
         assert!(fits == (message_size + add <= mtu));
     }
-    kani::cover!(!fits && dangling > 0, "does not fit the remaining space");
+    kani::cover!(!fits && dangling > 0 && message_size < mtu, "does not fit the remaining space");
+}
+
+// HARNESS: c10_can_pack
+// PROPS: C10
+// TIER: quick
+// TIMEOUT: 600
+// DRIVES: can_pack
+// BOUNDS: maximum message size in {2, 7, 1200 (default), 65535}; message size and added size symbolic over the full range below 2^62
+#[kani::proof]
+fn c10_can_pack() {
+    can_pack_spec(2);
+    can_pack_spec(7);
+    can_pack_spec(1200);
+    can_pack_spec(65535);
 }
